@@ -95,7 +95,15 @@ class StarCraftMpqIo:
             self._stormlib_wrapper.close_archive(
                 self._stormlib_wrapper.compact_archive(open_result)
             )
-            shutil.copyfile(temp_mpq_file, path_to_new_mpq_file)
+            # never leave a partially written map behind: write next to the destination,
+            # then move it into place in one step
+            partial_new_mpq_file = f"{path_to_new_mpq_file}.{os.urandom(8).hex()}.part"
+            try:
+                shutil.copyfile(temp_mpq_file, partial_new_mpq_file)
+                os.replace(partial_new_mpq_file, path_to_new_mpq_file)
+            finally:
+                if os.path.exists(partial_new_mpq_file):
+                    os.remove(partial_new_mpq_file)
 
     def _build_wav_metadata_lookup(
         self, path_to_base_mpq_file: str
